@@ -18,7 +18,8 @@ CONSTANTS
   MaxRecv,          \* bound on message deliveries (exhaustive configurations; large = unbounded)
   NValid,           \* values 1..NValid are valid, NValid+1..MaxVal are not
   PropShift,        \* rotates the proposer schedule
-  PowerTable        \* <<powers at H0, powers at H0+1, ...>> (cyclic): stakes change between heights
+  PowerTable,       \* <<powers at H0, powers at H0+1, ...>> (cyclic): stakes change between heights
+  WithOutsider      \* votes signed by a non-validator (NV + 1, no voting power) are part of the alphabet
 
 VARIABLES
   st,     \* [Corr -> process state]
@@ -62,7 +63,7 @@ ByzProposals ==
   {m \in {Msg("proposal", h, r, MCProposerOf(h, r), v, vr) :
              h \in H0..MsgMaxHeight, r \in Rounds, v \in 1..MaxVal, vr \in -1..MaxRound} : m.s \in Byz}
 ByzVotes ==
-  [k : {"prevote", "precommit"}, h : H0..MsgMaxHeight, r : Rounds, s : Byz \cup {Outsider}, v : 0..MaxVal, vr : {-1}]
+  [k : {"prevote", "precommit"}, h : H0..MsgMaxHeight, r : Rounds, s : Byz \cup (IF WithOutsider THEN {Outsider} ELSE {}), v : 0..MaxVal, vr : {-1}]
 ByzMsgs == ByzProposals \cup ByzVotes
 
 BroadcastsOf(acts) ==
